@@ -5,8 +5,8 @@
 (* and `vals` (key -> value).  Every public mutator is one action; the      *)
 (* outcome of an operation is a *set* of allowed <<result, order, vals>>    *)
 (* triples (Outcomes), so that the documented latitude (which error class   *)
-(* when two apply; the two readings of a numeric index while relocating;    *)
-(* self-relative relocation) is explicit nondeterminism of the model.       *)
+(* when two apply; self-relative relocation) is explicit nondeterminism of  *)
+(* the model.                                                              *)
 (*                                                                         *)
 (* The same operator Outcomes(s, o) is used by                              *)
 (*   - Next            (model check + edge generation, MC_SDict / Gen_SDict) *)
@@ -74,12 +74,13 @@ AddOrders(s, a) ==
             ELSE {Append(o, a.k)}
         ELSE
             IF a.index # NoArg THEN
-                \* relocation by number: the index may be read against the list before or after
-                \* the key has been taken out -- the documentation does not say; both accepted
-                LET t  == a.index + inc
-                    p0 == Pos0(o, a.k)
-                    t1 == IF p0 < t THEN t - 1 ELSE t
-                IN {InsertAt(rest, t, a.k), InsertAt(rest, t1, a.k)}
+                \* relocation by number: "index specifies the position from the start of the array (base 0)":
+                \* the key is taken out and ends up AT that position of the resulting array (clamped to the
+                \* end), one further with after = TRUE -- d.at(index) = key afterwards.  (The other conceivable
+                \* reading, "before the element now at index", was accepted too until seeded change C16-r2m1
+                \* showed that a silent switch between the two went unnoticed; the docstring's "position from
+                \* the start of the array" is the key's own resulting position.)
+                {InsertAt(rest, a.index + inc, a.k)}
             ELSE IF a.pos # NoArg THEN
                 IF a.pos = a.k
                 THEN {InsertAt(rest, j, a.k) : j \in 0..Len(rest)}      \* self-relative: unconstrained
